@@ -16,6 +16,17 @@
    flag is set exactly when the model's comparison of two successive tables differs.  These are the inputs of everything
    C06 (registration order) and C08 (split registrations) prove about the lattice.
 
+     gen_dedup   : `std::size_t mark = ++class_mark;` and the loop that, with a fresh mark per class, keeps the first
+                   occurrence of every base and records the weight (the number of proper bases);
+     gen_direct  : the loop that sorts the bases by decreasing weight and finds the direct ones with a marking pass (a base
+                   already marked by an earlier, heavier base is an indirect one);
+     gen_derived : the loop that appends every class to direct_derived of each of its direct bases.
+   C06_source_lattice_back: from any table whose entries are class indexes, the three loops leave exactly Model.Compile's
+   transitive_bases (deduplicated, sorted), direct_bases and direct_derived - the marks are shown to stand for the model's
+   `seen` / `marked` lists because every class draws a mark larger than any stored one.  std::sort is read as the model's
+   stable insertion sort (its comparison `a->weight > b->weight` is matched by the translator); calculate_covariant_classes
+   is matched as a call per class, not translated.
+
    Trusted in this tie: the parser and lowering of translators/lattice.py + _minicpp.py (the one dropped statement is the copy
    of static_vptr); class_map is an association list read through Policy::type_index = Model.Registry.proj. *)
 From Coq Require Import List NArith.
@@ -40,6 +51,38 @@ Theorem C06_source_closure : forall fuel tb, (forall c, ~ In c (nth c tb [])) ->
   run_closure fuel gen_closure tb = closure fuel tb.
 Proof. exact src_closure. Qed.
 Print Assumptions C06_source_closure.
+
+Theorem C06_source_lattice_back : forall tb1 n marks W0 cm M loc,
+  length tb1 = n -> length W0 = n -> (length marks = n /\ forall k, nth k marks 0 <= cm) ->
+  (forall c y, In y (nth c tb1 []) -> y < n) ->
+  let tb2 := map (fun l => dedupn l []) tb1 in
+  let w := fun c => length (nth c tb2 []) in
+  let tb3 := map (sort_by_weight w) tb2 in
+  let direct := map (direct_of tb2) tb3 in
+  let derived := map (derived_of direct) (seq 0 n) in
+  exists s1 s2 s3,
+    mk_exec gen_dedup env0 (mk_mk tb1 (repeat [] n) (repeat [] n) marks W0 cm M loc) = Some s1 /\
+    mk_exec gen_direct env0 s1 = Some s2 /\
+    mk_exec gen_derived env0 s2 = Some s3 /\
+    m_tb s3 = tb3 /\ m_dir s3 = direct /\ m_der s3 = derived.
+Proof. exact src_lattice_back. Qed.
+Print Assumptions C06_source_lattice_back.
+
+(* non-vacuity of the second half: the closed table of the diamond below, with a duplicate, goes through the three loops *)
+Example ex_lat_back :
+  let s0 := mk_mk [[1; 2; 3; 2]; [3]; [3]; []] (repeat [] 4) (repeat [] 4) [0; 0; 0; 0] [0; 0; 0; 0] 0 0 [] in
+  match mk_exec gen_dedup env0 s0 with
+  | Some s1 => match mk_exec gen_direct env0 s1 with
+               | Some s2 => match mk_exec gen_derived env0 s2 with
+                            | Some s3 => m_tb s3 = [[1; 2; 3]; [3]; [3]; []] /\ m_weight s3 = [3; 1; 1; 0]
+                                         /\ m_dir s3 = [[1; 2]; [3]; [3]; []] /\ m_der s3 = [[]; [0]; [0]; [1; 2]]
+                            | None => False
+                            end
+               | None => False
+               end
+  | None => False
+  end.
+Proof. vm_compute. repeat split. Qed.
 
 (* non-vacuity: D : B, C; B : A; C : A registered with direct bases only, derived first, one class through two records with
    two ids (alias 9 -> 4); the translated loops find A among the bases of D; an unregistered base is reported *)
